@@ -61,7 +61,7 @@ def run(ctx):
                 "one forked process per history; LOGJ_ identifier menu and 26-variable limit; JSON sink lines parsed with "
                 "python json; distinct = distinct (template, expected message)")
     exe = vf.build("c19_named", SRC, FLAGS)
-    ntok, nsh = (4, 16) if ctx.tier == "quick" else (5, 32)
+    ntok, nsh = (4, 16) if ctx.tier == "quick" else (6, 64)
     jobs = [(exe, ["--mode", "templates", "--ntok", ntok, "--shard", s, "--nshards", nsh], 1500) for s in range(nsh)]
     jobs.append((exe, ["--mode", "orders", "--depth", 12], 1500))
     jobs.append((exe, ["--mode", "logj"], 300))
